@@ -27,6 +27,7 @@ BUDGET = {
     'C15': (600, 30000),
     'C16': (500, 25000),
     'C17': (1500, 60000),
+    'C18': (300, 1600),
 }
 
 
@@ -45,6 +46,15 @@ def replay(pid, mod, path):
         q, t = BUDGET.get(pid, (1000, 20000))
         n = t if tier == 'thorough' else q
         case = rp.get('case')
+        if isinstance(case, dict) and hasattr(mod, 'replay_plan') and ('plan' in case or case.get('stress')):
+            bad = mod.replay_plan(rp)
+            for b in bad[:3]:
+                print('REPRODUCED: thread %s under plan %r: %s  (alone: %s)' % (b.get('thread'), b.get('plan'), b.get('got'), b.get('alone')))
+            if bad:
+                print('VIOLATION property=%s replay=%s' % (pid, path))
+                return 1
+            print('not reproduced on the current tree')
+            return 0
         if isinstance(case, dict) and 'index' in case and 'seed' in case:
             cases.ONLY = (int(case['seed']), int(case['index']))     # the stream yields this case only
             print('replaying case seed=%s index=%s profile=%s' % (case['seed'], case['index'], case.get('profile')))
